@@ -768,6 +768,24 @@ impl<'tcx> Ex<'tcx> {
                                 statics.push((self.id(did), j));
                             }
                         }
+                    } else if !(t.is_integral() || t.is_bool()) && !matches!(t.kind(), ty::Array(..)) {
+                        // small non-scalar constants (SIMD masks): raw bytes
+                        if let Ok(cv) = tcx.const_eval_poly(did) {
+                            if let mir::ConstValue::Indirect { alloc_id, offset } = cv {
+                                let a = tcx.global_alloc(alloc_id).unwrap_memory().inner();
+                                let off = offset.bytes() as usize;
+                                if a.len() - off <= 64 {
+                                    let bytes = a.inspect_with_uninit_and_ptr_outside_interpreter(off..a.len());
+                                    statics.push((
+                                        self.id(did),
+                                        obj(vec![
+                                            ("ty", self.ty(t)),
+                                            ("bytes", arr(bytes.iter().map(|b| n(*b as i128)).collect())),
+                                        ]),
+                                    ));
+                                }
+                            }
+                        }
                     } else if t.is_integral() || t.is_bool() {
                         if let Ok(mir::ConstValue::Scalar(Scalar::Int(si))) = tcx.const_eval_poly(did) {
                             statics.push((
